@@ -57,7 +57,12 @@ namespace rapidjson {
         if (0 > k + maxDecimalPlaces) {
           // truncate (not round) to maxDecimalPlaces, drop trailing zeros
           // but keep at least one decimal
+          // (RapidJSON's dtoa documents maxDecimalPlaces >= 1; for 0 its
+          // release-build arithmetic still keeps one decimal: "3.5")
           size_t keep = static_cast<size_t>(kk + maxDecimalPlaces + 1);
+          if (keep < static_cast<size_t>(kk + 2)) {
+            keep = static_cast<size_t>(kk + 2);
+          }
           out = out.substr(0, keep);
           while (out.size() > static_cast<size_t>(kk + 2)  &&
                  out[out.size() - 1] == '0') {
@@ -72,7 +77,8 @@ namespace rapidjson {
         out.append(static_cast<size_t>(-kk), '0');
         out.append(digits);
         if (length - kk > maxDecimalPlaces) {
-          out = out.substr(0, static_cast<size_t>(maxDecimalPlaces + 2));
+          out = out.substr(0, static_cast<size_t>(
+                  maxDecimalPlaces >= 1 ? maxDecimalPlaces + 2 : 3));
           while (out.size() > 3  &&  out[out.size() - 1] == '0') {
             out.erase(out.size() - 1);
           }
